@@ -258,6 +258,43 @@ def r01_3_4(run):
                "masking node is dead when `self.where is True`" if ok else "contribution multiplied by `True` (dtype promotion)")
 
 
+def r01_3b(run):
+    """every other function that stores a gradient on a tensor it was *handed* (a parameter) follows the same discipline:
+    plain store only when no gradient is present, otherwise accumulate"""
+    from .c14 import is_none_value, tensor_grad_stores
+    by = {}
+    for fi, mod, st, t, val, kind in tensor_grad_stores(run):
+        if fi is None or is_none_value(val) or fi.qualname == OP_BACKWARD:
+            continue
+        recv = t.value
+        params = [a.arg for a in fi.node.args.args + fi.node.args.kwonlyargs]
+        if not (isinstance(recv, ast.Name) and recv.id in params and recv.id != "self"):
+            continue
+        by.setdefault(fi.qualname, (fi, []))[1].append((st, recv.id, kind))
+    for q, (fi, lst) in sorted(by.items()):
+        cfg = build_cfg(run, fi)
+        has_acc = False
+        for st, recv, kind in lst:
+            ns = cfg.node_for(st)
+            if kind == "aug":
+                ok = isinstance(st.op, ast.Add)
+                has_acc = has_acc or ok
+                run.ob("R01.3", loc(fi, st), fi.short, f"accumulating store {norm(st)[:50]}", ok, "+= reads the previous value" if ok else "not a sum")
+                continue
+            if f"{recv}._grad" in {norm(x) for x in ast.walk(st.value)}:
+                has_acc = True
+                run.ob("R01.3", loc(fi, st), fi.short, f"accumulating store {norm(st)[:50]}", True, "X = X + ... form")
+                continue
+            tests = [n for n, s in cfg.stmt.items() if cfg.label[n] == "If" and norm(s) == f"{recv}._grad is None"]
+            ok = any(cfg.edge_dominates(t_, "true", ns) for t_ in tests)
+            run.ob("R01.3", loc(fi, st), fi.short, f"plain store {norm(st)[:50]} only when no gradient is present", ok,
+                   f"edge-dominated by the true edge of `{recv}._grad is None`" if ok else
+                   f"{fi.short} overwrites the gradient already accumulated on the tensor it is handed: a parameter used more than once (or shared between "
+                   f"layers) keeps only the last contribution")
+        run.ob("R01.3", loc(fi, fi.node), fi.short, "helper accumulates when a gradient is already present", has_acc,
+               "a `+=` / `X = X + g` store exists" if has_acc else "no accumulating store at all")
+
+
 def _derives_from(cfg, name, at, origin, seen) -> bool:
     """Every definition of `name` reaching node `at` is `origin` or a function of a value that derives from it."""
     for d in reaching_defs(cfg, name, at):
@@ -365,6 +402,7 @@ def check(run):
     r01_1(run)
     r01_2(run)
     r01_3_4(run)
+    r01_3b(run)
     opcontract.r01_5(run)
     r01_6(run)
     r01_7(run)
